@@ -277,6 +277,8 @@ def parse_line_trace(out):
             ev.append(("enq", int(w[1][1:]), int(w[2][2:]), int(w[3][5:])))
         elif w[0] == "msend":
             ev.append(("msend", int(w[1][1:]), int(w[2][3:])))
+        elif w[0] == "?" and w[1:2] == ["mark"]:
+            ev.append(("mark",))
     return ev
 
 
@@ -300,6 +302,9 @@ class FcbOracle:
         self.errors = []
         self.reps = 0
         self.nfcv = 0
+        self.now = None                 # virtual time (ms) when the script carries marks
+        self.first_tx = None            # time of the first transmission of last_fcv
+        self.cur_reps = 0               # retransmissions of last_fcv so far
 
     def primary_sends(self, f, reached):
         c = f[1] if f[0] == 0x10 else f[4]
@@ -326,6 +331,10 @@ class FcbOracle:
                     self.reps += 1
                     if f != self.last_fcv:
                         self.errors.append(("repeat-not-identical", "%s: unanswered frame %s repeated as %s" % (self.tag, self.last_fcv.hex(), f.hex())))
+            if self.last_fcv is not None and not self.answered and f == self.last_fcv:
+                self.cur_reps += 1
+            else:
+                self.first_tx, self.cur_reps = self.now, 0
             self.last_fcv = f
             self.answered = False
             if reached:
@@ -367,7 +376,18 @@ class FcbOracle:
                 self.tag, self.sec_last_fcv.hex(), self.sec_last_answer.hex())))
         self.sec_waiting = False
 
-    def link_failed(self):
+    def link_failed(self, t_ack=None, t_rep=None):
+        """the primary of this direction reports the link in error.  With timing information: while a frame with FCV=1 is
+        unanswered this may happen only after the repeat timeout counted from the frame's FIRST transmission, and the frame
+        must have been repeated in between when the acknowledgement timeout is shorter than half the repeat timeout"""
+        if t_rep is not None and self.now is not None and self.last_fcv is not None and not self.answered and self.first_tx is not None:
+            el = self.now - self.first_tx
+            if el < t_rep:
+                self.errors.append(("error-before-repeat-timeout", "%s: link reported in error %d ms after the first transmission of the unanswered frame %s (%d repetitions); the repeat timeout is %d ms" % (
+                    self.tag, el, self.last_fcv.hex(), self.cur_reps, t_rep)))
+            elif self.cur_reps == 0 and t_ack is not None and 2 * t_ack < t_rep:
+                self.errors.append(("no-repetition", "%s: unanswered frame %s was never repeated before the link was reported in error after %d ms (acknowledgement timeout %d ms)" % (
+                    self.tag, self.last_fcv.hex(), el, t_ack)))
         self.last_fcv = None
         self.answered = True
         self.after_reset = False
@@ -379,9 +399,10 @@ def saddr(al, i):
     return 0x100 * (i + 1) + 11 + i if al == 2 else 11 + i
 
 
-def exchange(mode, al, sc, nslaves, actions, rounds, tick, q1=10, q2=10, mq=10, lose=(), dup=(), extra_cfg="", tls=1500):
+def exchange(mode, al, sc, nslaves, actions, rounds, tick, q1=10, q2=10, mq=10, lose=(), dup=(), extra_cfg="", tls=1500, marks=False):
     """one script: every round = tick; application actions due in this round; poll (unbalanced); step m; step every slave.
-    actions: {round: [script lines]}"""
+    actions: {round: [script lines]}.  marks: after every tick a line `mark`, which harness and model both echo as
+    `? mark` (unknown command) -- the oracle uses the echoes to know the virtual time of every trace line"""
     s = ["cfg mode=%s al=%d sc=%d slaves=%d q1=%d q2=%d mq=%d tack=200 trep=1000 tls=%d%s" % (mode, al, sc, nslaves, q1, q2, mq, tls, extra_cfg)]
     if lose:
         s.append("lose " + " ".join(str(k) for k in sorted(lose)))
@@ -389,6 +410,8 @@ def exchange(mode, al, sc, nslaves, actions, rounds, tick, q1=10, q2=10, mq=10, 
         s.append("dupf " + " ".join(str(k) for k in sorted(dup)))
     for r in range(rounds):
         s.append("tick %d" % tick)
+        if marks:
+            s.append("mark")
         s += actions.get(r, [])
         if mode == "unb":
             for i in range(nslaves):
@@ -403,9 +426,12 @@ def frames_in(out):
     return sum(1 for l in out if l.startswith("tx "))
 
 
-def fcb_check(out, mode, al, nslaves):
-    """run the frame-count-bit oracle over a h_cs101 trace; returns (errors, stats)"""
+def fcb_check(out, mode, al, nslaves, script=None, t_ack=200, t_rep=1000):
+    """run the frame-count-bit oracle over a h_cs101 trace; returns (errors, stats).  With `script` (a script built with
+    marks=True) the timing clauses are evaluated as well."""
     ev = parse_line_trace(out)
+    ticks = [int(l.split()[1]) for l in script if l.startswith("tick ")] if script else None
+    nmark, now = 0, 0
     orc = {}
     for i in range(nslaves):
         orc[("m", i)] = FcbOracle(al, "master->slave%d" % (i + 1))
@@ -415,6 +441,13 @@ def fcb_check(out, mode, al, nslaves):
     delivered = {}
     failed_since = {}
     for e in ev:
+        if e[0] == "mark":
+            if ticks is not None and nmark < len(ticks):
+                now += ticks[nmark]
+                nmark += 1
+                for o in orc.values():
+                    o.now = now
+            continue
         if e[0] == "tx":
             _, st, n, f, lost, dup = e
             if wf_frame(f, al):
@@ -449,13 +482,13 @@ def fcb_check(out, mode, al, nslaves):
             if e[2] == 1:
                 for i in range(nslaves):
                     if mode == "bal" or e[1] == saddr(al, i):
-                        orc[("m", i)].link_failed()
+                        orc[("m", i)].link_failed(t_ack, t_rep) if ticks is not None else orc[("m", i)].link_failed()
                         failed_since[("s", i)] = True      # deliveries at slave i may now repeat the frame in flight
                         if mode != "bal":
                             failed_since[("m", e[1])] = True  # unbalanced: the responses travel on the same failed link
         elif e[0] == "sls" and mode == "bal":
             if e[2] == 1:
-                orc[("s", e[1] - 1)].link_failed()
+                orc[("s", e[1] - 1)].link_failed(t_ack, t_rep) if ticks is not None else orc[("s", e[1] - 1)].link_failed()
                 failed_since[("m", 0)] = True
         elif e[0] in ("sdeliver", "mdeliver"):
             if e[2] is None:
